@@ -165,13 +165,67 @@ pub struct BackendRun {
     pub accepted: Vec<Uuid>,
     unknown: HashMap<u64, Uuid>,
     pub stats: HashMap<String, u64>,
+    /// emit one `STORED` line (what was really stored for a version, for the sealing check)
+    pub sealed_check: bool,
+    sealed_done: bool,
+    /// protocol lines to append to ops.txt after the current one
+    pub extra_ops: Vec<String>,
 }
 
 fn git(dir: &std::path::Path, args: &[&str]) {
     let _ = std::process::Command::new("git").args(args).current_dir(dir).output();
 }
 
+fn b64dec(s: &str) -> Vec<u8> {
+    let tbl = b"ABCDEFGHIJKLMNOPQRSTUVWXYZabcdefghijklmnopqrstuvwxyz0123456789+/";
+    let mut out = Vec::new();
+    let mut acc = 0u32;
+    let mut bits = 0;
+    for c in s.bytes() {
+        if c == b'=' {
+            break;
+        }
+        if let Some(i) = tbl.iter().position(|x| *x == c) {
+            acc = (acc << 6) | i as u32;
+            bits += 6;
+            if bits >= 8 {
+                bits -= 8;
+                out.push((acc >> bits) as u8);
+                acc &= (1 << bits) - 1;
+            }
+        }
+    }
+    out
+}
+
 impl BackendRun {
+    /// what the backend really stored for the version `child` of `parent`: (bound id, salt, bytes)
+    pub fn stored_version(&self, h: usize, parent: Uuid, child: Uuid) -> Option<(Uuid, Vec<u8>, Vec<u8>)> {
+        match self.kind {
+            Kind::Cloud => {
+                let st = self.store.as_ref()?.lock().unwrap();
+                let name = format!("v-{}-{}", parent.simple(), child.simple());
+                let bytes = st.objects.get(&name)?.1.clone();
+                let salt = st.objects.get("salt")?.1.clone();
+                Some((child, salt, bytes))
+            }
+            Kind::GitLocal | Kind::GitRemote => {
+                let dir = &self.dirs[h];
+                let bytes = std::fs::read(dir.join(format!("v-{}-{}", parent.simple(), child.simple()))).ok()?;
+                let meta: serde_json::Value = serde_json::from_slice(&std::fs::read(dir.join("meta")).ok()?).ok()?;
+                let salt = b64dec(meta.get("salt")?.as_str()?);
+                Some((child, salt, bytes))
+            }
+            Kind::Http => {
+                let st = self.http.as_ref()?.0.lock().unwrap();
+                let v = st.versions.iter().find(|v| v.0 == child)?;
+                // the HTTP client seals versions for the PARENT id; the salt is the client id
+                Some((parent, self.client_id.as_bytes().to_vec(), v.2.clone()))
+            }
+            Kind::Local => None,
+        }
+    }
+
     pub fn new(kind: Kind, nhandles: usize) -> BackendRun {
         let dir = tempfile::TempDir::new_in(crate::work_dir()).unwrap();
         let rt = tokio::runtime::Builder::new_current_thread().enable_all().build().unwrap();
@@ -191,6 +245,9 @@ impl BackendRun {
             accepted: Vec::new(),
             unknown: HashMap::new(),
             stats: HashMap::new(),
+            sealed_check: false,
+            sealed_done: false,
+            extra_ops: Vec::new(),
         };
         match kind {
             Kind::Local | Kind::GitLocal => {
@@ -318,7 +375,29 @@ impl BackendRun {
                     Ok((AddVersionResult::Ok(id), _)) => {
                         self.accepted.push(id);
                         self.stat("accepted");
-                        format!("ok v{}", self.accepted.len())
+                        let mut o = format!("ok v{}", self.accepted.len());
+                        if self.sealed_check && !self.sealed_done && *b != "." {
+                            if let Some((bound, salt, bytes)) = self.stored_version(h, parent, id) {
+                                self.sealed_done = true;
+                                // a second protocol line rides along: `STORED` is answered by the model
+                                // opening the bytes with a key it derives itself
+                                o.push_str(&format!(
+                                    "\n> KEY {} {}\nkey\n> OPEN {} {}\nok {}",
+                                    hex(&self.secret),
+                                    hex(&salt),
+                                    bound.as_u128(),
+                                    hex(&bytes),
+                                    b
+                                ));
+                                self.extra_ops.push(format!("KEY {} {}", hex(&self.secret), hex(&salt)));
+                                self.extra_ops.push(format!("OPEN {} {}", bound.as_u128(), hex(&bytes)));
+                                let leak = b.len() >= 16 && hex(&bytes).contains(&b[..16.min(b.len())]);
+                                if leak {
+                                    o.push_str("\nleak FOUND");
+                                }
+                            }
+                        }
+                        o
                     }
                     Ok((AddVersionResult::ExpectedParentVersion(l), _)) => {
                         self.stat("rejected");
